@@ -191,6 +191,42 @@ def _case(cfg, values):
     return Case(call, {}, [])
 
 
+# ------------------------------------------------------------------ the decompile cache: run-time created code objects come and go
+def _cache_case(cfg, values):
+    def call():
+        import copy, gc
+        st = cur().state
+        decompiling.ast_cache.clear()
+        bad = []; n = 0
+        srcs = [x for x in sources('quick') if _is_hand(x[1])]
+        envs = [dict(a=a, b=b, c=c) for a, b, c in ((0, 1, 2), (2, None, 1), (1, 1, 0), (None, 2, 2))]
+        for rounds in range(2):
+            for kind, src in srcs:
+                is_lambda = kind == 'lambda'
+                orig = compile(src, '<source>', 'eval')
+                try:
+                    obj = eval(orig, dict(xs=XS, f=f, a=0, b=0, c=0))
+                    tree, external_names, cells = decompile(obj)                # the cache is NOT cleared: whatever it returns must belong to THIS code object
+                except Exception:
+                    continue
+                finally:
+                    obj = None; gc.collect()                                      # the code object is garbage now; its address may be reused
+                if src in KNOWN_WRONG: continue
+                try: dec = _compile_tree(copy.deepcopy(tree), is_lambda)
+                except Exception: continue
+                n += 1
+                for e in envs:
+                    env = dict(xs=XS, f=f, **e)
+                    if _value(orig, is_lambda, env) != _value(dec, is_lambda, dict(env)):
+                        bad.append((src, e, 'decompile() answered with the tree of another expression')); break
+        st['n'] = n
+        return [repr(b)[:300] for b in bad[:5]]
+    return Case(call, {}, [])
+
+
+KNOWN_WRONG = ('((a if b else (c if a else b)) for x in xs)', '(x.p for x in xs if (a if b else (c if a else b)))')
+
+
 def _cfgs(tier):
     out = _configs(tier)
     for c in out: c['_tier'] = tier
@@ -210,6 +246,9 @@ def _wellformed(cfg, i, path):
 
 
 CONTRACTS = [
+    Contract('decompile.cache', ['pony.orm.decompiling:decompile', 'pony.utils.utils:get_codeobject_id'], [dict()], _cache_case,
+             [('cached_tree_belongs_to_the_code_object_asked_about', lambda cfg, i, path: path.outcome == 'ret' and path.value == [] and path.state['n'] > 100)], level='bounded',
+             bound='~450 hand-written sources decompiled twice in sequence with the cache kept and every code object dropped after use'),
     Contract('decompile', ['pony.orm.decompiling:decompile', 'pony.orm.decompiling:Decompiler.decompile', 'pony.orm.decompiling:Decompiler.analyze_jumps',
                            'pony.orm.decompiling:Decompiler.conditional_jump_new', 'pony.orm.decompiling:Decompiler.process_target'], _cfgs, _case,
              [('decompiled_tree_evaluates_like_the_source_or_is_rejected', _spec), ('returned_tree_is_a_well_formed_expression', _wellformed)], level='bounded',
